@@ -47,6 +47,8 @@ impl BytesMut {
     #[verifier::external_body]
     /// a BytesMut (like every Rust allocation) never holds more than isize::MAX bytes
     pub fn len(&self) -> (r: usize) ensures r == self@.len(), r <= isize::MAX as usize { unimplemented!() }
+    #[verifier::external_body]
+    pub fn is_empty(&self) -> (r: bool) ensures r == (self@.len() == 0) { unimplemented!() }
     /// bytes::Buf::advance: panics if cnt > remaining
     #[verifier::external_body]
     pub fn advance(&mut self, cnt: usize)
